@@ -1,4 +1,4 @@
-\* measured: 59,285 distinct / 549,274 generated states, depth 16
+\* measured: 59,285 distinct / 814,294 generated states, depth 13
 SPECIFICATION Spec
 CONSTANTS
   Kinds = {"W", "F"}
@@ -10,5 +10,5 @@ CONSTANTS
   MaxDeliver = 2
 VIEW View
 INVARIANTS TypeOK C39_AtMostOnce C39_NoLossAfterSwitch C39_FenceClosesSource C39_Recoverable
-PROPERTIES C39_ReplayNoop C39_NonOwnerRefuses
+PROPERTIES C39_ReplayNoop C39_AnsweredMeansRecorded C39_NonOwnerRefuses
 CHECK_DEADLOCK FALSE
